@@ -64,6 +64,7 @@ class Res:
         self.r = new_result()
         self._nt = set()
         self._out = set()
+        self._fpn = {}
 
     def case(self, nontrivial_key=None, outcome=None, n=1):
         self.r["n"] += n
@@ -83,8 +84,11 @@ class Res:
             m[name] = v
 
     def violation(self, fp, what, case):
-        if len(self.r["viol"]) < 40:
+        # every distinct fingerprint is kept (at most 3 examples each), so that one noisy class cannot hide another
+        k = self._fpn.get(fp, 0)
+        if k < 3 and len(self.r["viol"]) < 400:
             self.r["viol"].append({"fp": fp, "what": what, "case": jsonable(case)})
+        self._fpn[fp] = k + 1
         self.count("violations_total")
 
     def sample(self, s, limit=2):
